@@ -88,11 +88,26 @@ def one_case(ctx, kind, inp, inp0, user_seed, configs):
                 return "trivial"
             t0 = read_tree(s)
             seedtree = splice(t0, presv.user_blocks(rng, t0, density=1.0))
+            # what else a long-lived output directory holds: framework files of an older kojen (other content), a generated file that a
+            # tool re-saved in another encoding; and file timestamps that say nothing (fresh checkout, restored archive, clock skew)
+            frame = sorted(k for k in seedtree if k.startswith("allplatforms/"))
+            if frame and rng.random() < 0.6:
+                k = rng.choice(frame)
+                seedtree[k] = seedtree[k] + b"// older framework version\n"
+            gen = sorted(k for k in seedtree if not k.startswith("allplatforms/") and b"USER_" in seedtree[k])
+            if gen and rng.random() < 0.3:
+                k = rng.choice(gen)
+                seedtree[k] = seedtree[k].replace(b"\n", b"\n// gr\xfc\xdfe\n", 1)
         for i, c in enumerate(configs):
             base = os.path.join(d, "c%d" % i)
             os.makedirs(base)
             if seedtree is not None:
                 write_tree(os.path.join(base, "out"), seedtree)
+                if i > 0:
+                    stamp = 1000000000 if i % 2 == 1 else 4000000000     # 2001 / 2096; configuration 0 keeps "now"
+                    for root, _ds, fs in os.walk(os.path.join(base, "out")):
+                        for f in fs:
+                            os.utime(os.path.join(root, f), (stamp, stamp))
             ret, err = run_config(kind, inp, base, *c)
             if err:
                 if i == 0:
@@ -137,6 +152,8 @@ def run(ctx):
             inp["lang"] = kind
             inp0 = None
             if i % 2 == 1:
+                if kind in ("py", "cs", "cpp", "proto") and i % 4 == 1:
+                    inp["copy_other"] = True       # the framework files (allplatforms/) are part of the tree
                 inp0 = presv.mutate_input(ctx.rng, kind, inp)
                 inp0["name"] = inp["name"]
             user_seed = ctx.rng.randint(0, 1 << 30)
